@@ -154,8 +154,8 @@ where
         read_primitive_bytes_or_else(reader, |_| Err(Error::InvalidFormatCode))?;
     bytes.append(&mut descriptor_bytes);
 
-    // Read the value
-    let mut value_bytes = read_primitive_bytes_or_else(reader, |_| Err(Error::InvalidFormatCode))?;
+    // Read the value, which may itself be a described value
+    let mut value_bytes = read_primitive_bytes_or_else(reader, read_described_bytes)?;
     bytes.append(&mut value_bytes);
 
     Ok(bytes)
